@@ -83,8 +83,8 @@ type c12Scenario struct {
 	// (i.e. how many operations are stalled deliberately) in one schedule; 0 = unbounded.
 	// Time always passes when nothing else can run.
 	StallTs int
-	// Free: no scheduling at all — the processes run truly in parallel (Connections = 4, yield
-	// perturbation in the backend) on the virtual clock; this is what gives the race detector
+	// Free: no scheduling at all — the processes run truly in parallel (Connections = 4) on the
+	// virtual clock; this is what gives the race detector
 	// real concurrency between the goroutines of the lock code. Stamps of the event log are then
 	// conservative (acquired is noted after Lock returned, releasing before Unlock is called),
 	// so every overlap found is a real one.
@@ -391,9 +391,9 @@ func c12Execute(t *testing.T, bases [2]*c12Base, sc c12Scenario, choose c12Choos
 		}
 		be := kit.NewVBackendFrom(base.state, conn, true)
 		be.Lag = sc.Lag
-		if sc.Free {
-			be.SetYield(20, kit.NewRNG(uint64(len(sc.Name)), sc.Name))
-		}
+		// (no yield perturbation in free-running mode: a virtual-time sleep inside a backend
+		// operation that restic issues while holding a mutex — RemoveStaleLocks' callback — stops
+		// the bubble's clock for good as soon as another worker waits for that mutex)
 		s := kit.NewSched(c12RoleMarks...)
 		s.ListNewestFirst = sc.Newest
 		master := base.open(be)
